@@ -89,20 +89,25 @@ impl NodeHandle {
         self.dispose_children();
         let mut nodes = self.1.nodes.borrow_mut();
         // Release memory.
-        if let Some(this) = nodes.remove(self.0) {
+        if let Some(mut this) = nodes.remove(self.0) {
             // Remove self from all dependencies.
-            for dependent in this.dependents {
+            for dependent in std::mem::take(&mut this.dependents) {
                 // dependent might have been removed if it is a child node.
                 if let Some(dependent) = nodes.get_mut(dependent) {
                     dependent.dependencies.retain(|&mut id| id != self.0);
                 }
             }
             // Unsubscribe self from everything it depended on.
-            for dependency in this.dependencies {
+            for dependency in std::mem::take(&mut this.dependencies) {
                 if let Some(dependency) = nodes.get_mut(dependency) {
                     dependency.dependents.retain(|&id| id != self.0);
                 }
             }
+            // Dropping the value held by the node can run arbitrary code that accesses the
+            // reactive graph (e.g. a suspense guard releasing its counter): release the borrow
+            // first.
+            drop(nodes);
+            drop(this);
         }
     }
 
@@ -140,10 +145,14 @@ impl NodeHandle {
             }
         }
 
-        // Clear context values. A cleanup callback may have disposed this node already.
-        if let Some(this) = self.1.nodes.borrow_mut().get_mut(self.0) {
-            this.context.clear();
-        }
+        // Clear context values. A cleanup callback may have disposed this node already. The values
+        // are dropped only once the borrow is released, since dropping them can run arbitrary code
+        // that accesses the reactive graph.
+        let context = match self.1.nodes.borrow_mut().get_mut(self.0) {
+            Some(this) => std::mem::take(&mut this.context),
+            None => Vec::new(),
+        };
+        drop(context);
     }
 
     /// Run a closure under this reactive node.
